@@ -83,6 +83,9 @@ func (txR *Reactor) fetchTx(peer string, hashes []common.Hash) error {
 
 // OnStart implements p2p.BaseReactor.
 func (txR *Reactor) OnStart() error {
+	// Receive and RemovePeer hand their work to the fetcher whether or not
+	// this node broadcasts: without its loop they block forever
+	txR.txFetcher.Start()
 	if !txR.config.Broadcast {
 		txR.Logger.Info("Tx broadcasting is disabled")
 		return nil
@@ -90,7 +93,6 @@ func (txR *Reactor) OnStart() error {
 	txR.txsCh = make(chan events.NewTxsEvent, txChanSize)
 	txR.txsSub = txR.txpool.SubscribeNewTxsEvent(txR.txsCh)
 
-	txR.txFetcher.Start()
 	go txR.broadcastTransactionsRoutine()
 	return nil
 }
